@@ -236,8 +236,6 @@ class Gateway(Engine):
     ) -> tuple[dict[str, Any], dict[str, str]]:
         """Return the current schema & state (may include expired packets)."""
 
-        self._pause()
-
         def wanted_msg(msg: Message, include_expired: bool = False) -> bool:
             if msg.code == Code._313F:
                 return msg.verb in (I_, RP)  # usu. expired, useful 4 back-back restarts
@@ -251,28 +249,30 @@ class Gateway(Engine):
             #     return True
             return include_expired or not msg._expired
 
-        msgs = [m for device in self.devices for m in device._msg_db]
+        self._pause()
+        try:
+            msgs = [m for device in self.devices for m in device._msg_db]
 
-        for system in self.systems:
-            msgs.extend(list(system._msgs.values()))
-            msgs.extend([m for z in system.zones for m in z._msgs.values()])
-            # msgs.extend([m for z in system.dhw for m in z._msgs.values()])  # TODO
+            for system in self.systems:
+                msgs.extend(list(system._msgs.values()))
+                msgs.extend([m for z in system.zones for m in z._msgs.values()])
+                # msgs.extend([m for z in system.dhw for m in z._msgs.values()])  # TODO
 
-        if self._zzz:
-            pkts = {
-                f"{repr(msg._pkt)[:26]}": f"{repr(msg._pkt)[27:]}"
-                for msg in self._zzz.all(include_expired=True)
-                if wanted_msg(msg, include_expired=include_expired)
-            }
+            if self._zzz:
+                pkts = {
+                    f"{repr(msg._pkt)[:26]}": f"{repr(msg._pkt)[27:]}"
+                    for msg in self._zzz.all(include_expired=True)
+                    if wanted_msg(msg, include_expired=include_expired)
+                }
 
-        else:
-            pkts = {  # BUG: assumes pkts have unique dtms: may be untrue for contrived logs
-                f"{repr(msg._pkt)[:26]}": f"{repr(msg._pkt)[27:]}"
-                for msg in msgs
-                if wanted_msg(msg, include_expired=include_expired)
-            }
-
-        self._resume()
+            else:
+                pkts = {  # BUG: assumes pkts have unique dtms: may be untrue for contrived logs
+                    f"{repr(msg._pkt)[:26]}": f"{repr(msg._pkt)[27:]}"
+                    for msg in msgs
+                    if wanted_msg(msg, include_expired=include_expired)
+                }
+        finally:  # always resume, even if a message/view raised
+            self._resume()
 
         return self.schema, dict(sorted(pkts.items()))
 
@@ -316,23 +316,24 @@ class Gateway(Engine):
         # The actual HGI address will be discovered when the actual transport was/is
         # started up (usually before now)
 
-        tmp_protocol = protocol_factory(
-            self._msg_handler,
-            disable_sending=True,
-            enforce_include_list=enforce_include_list,
-            exclude_list=self._exclude,
-            include_list=self._include,
-        )
+        try:
+            tmp_protocol = protocol_factory(
+                self._msg_handler,
+                disable_sending=True,
+                enforce_include_list=enforce_include_list,
+                exclude_list=self._exclude,
+                include_list=self._include,
+            )
 
-        tmp_transport = await transport_factory(
-            tmp_protocol,
-            packet_dict=packets,
-        )
+            tmp_transport = await transport_factory(
+                tmp_protocol,
+                packet_dict=packets,
+            )
 
-        await tmp_transport.get_extra_info(SZ_READER_TASK)
-
-        _LOGGER.warning("GATEWAY: Restored, resuming")
-        self._resume()
+            await tmp_transport.get_extra_info(SZ_READER_TASK)
+        finally:  # always resume, even if the restore failed or was cancelled
+            _LOGGER.warning("GATEWAY: Restored, resuming")
+            self._resume()
 
     def _add_device(self, dev: Device) -> None:  # TODO: also: _add_system()
         """Add a device to the gateway (called by devices during instantiation)."""
